@@ -584,6 +584,7 @@ PROPS["C16"] = {
         leg("rt-observer_slot", "c16_rt", (2, 3), {"kind": "observer_slot"}, what="task_arena(2,2): the main thread stays in slot 0 while two application threads pass through execute(); an observer with a slow on_scheduler_exit counts a thread as inside from its entry callback to the end of its exit callback: the slot index must not be handed to the next thread before that"),
         leg("rt-isolate_critical", "c16_rt", (1, 2), {"kind": "isolate_critical"}, what="an isolated waiter with nothing to do must not run a critical task (priority flow-graph node) that another application thread submitted outside the scope", weight=2.0),
         leg("rt-priority", "c16_rt", (1, 2), {"kind": "priority"}, what="one worker, a low-priority arena whose loop chunks the worker holds in its own pool, and a high-priority arena that receives enqueued work: the worker must be handed over instead of draining its low-priority pool", weight=3.0),
+        leg("rt-full_arena", "c16_rt", (1, 2), {"kind": "full_arena"}, what="one worker; task_arena A(2,0) is filled by two application threads, one of which then spawns a task and parks; a task enqueued into arena B(2,1) must get the worker (A has no slot for it and must not keep asking for it)", weight=2.0),
         leg("rt-gc1", "c16_rt", (2, 3), {"kind": "gc", "L": 1}, what="max_allowed_parallelism 1: no worker runs user work"),
         leg("rt-gc2", "c16_rt", (2, 3), {"kind": "gc", "L": 2}, what="max_allowed_parallelism 2: at most one worker"),
         leg("rt-gc3", "c16_rt", (2, 2), {"kind": "gc", "L": 3}, what="max_allowed_parallelism 3: at most two workers"),
